@@ -718,9 +718,13 @@ func GenCopy(t *rapid.T) *CopyCase {
 	// at least one mutation on each side, then random ones
 	g.mutate(a)
 	g.mutate(b)
-	g.mutations(a, b, nMut)
+	g.mutations(a, b, nMut/2)
+	// snapshots in the middle: further copies that later mutations must not reach
+	g.emit(Let{Name: "snapA", Init: V("a")})
+	g.emit(Let{Name: "snapB", Init: bRoot.e})
+	g.mutations(a, b, nMut-nMut/2)
 
-	res := ArrLit{T: Arr(Any), Elems: []Expr{V("a"), bRoot.e}}
+	res := ArrLit{T: Arr(Any), Elems: []Expr{V("a"), bRoot.e, V("snapA"), V("snapB")}}
 	if form == "method-return" {
 		res.Elems = append(res.Elems, Member{X: V("h"), Name: "f"})
 	}
